@@ -106,6 +106,7 @@ func seqBody(g lstore.Geometry, depth int) func() {
 		s := lstore.Open(g, med)
 		T := mk(g, "T", 0, 3)
 		tr := &tracker{}
+		var lastUpload *lstore.Obj
 		fill, small := 0, 0
 		nops := 5
 		if g.Persistent {
@@ -122,11 +123,17 @@ func seqBody(g lstore.Geometry, depth int) func() {
 				o := mk(g, "F", 1000+fill, 8)
 				err := s.PutOK(o.Digest, o.Content)
 				vsched.Obs("F=%s", status.Code(err))
+				if err == nil {
+					lastUpload = &o
+				}
 			case 1:
 				small++
 				o := mk(g, "S", 2000+small, 3+small%2*2)
 				err := s.PutOK(o.Digest, o.Content)
 				vsched.Obs("S=%s", status.Code(err))
+				if err == nil {
+					lastUpload = &o
+				}
 			case 2:
 				err := s.PutOK(T.Digest, T.Content)
 				vsched.Obs("PT=%s", status.Code(err))
@@ -146,10 +153,26 @@ func seqBody(g lstore.Geometry, depth int) func() {
 					failf("get-error-"+status.Code(err).String(), "Get(T) failed: %v", err)
 				}
 			case 4:
-				miss, err := s.FindMissing(T.Digest)
+				// a batch, as clients send them: T together with the most recent upload (fresh) and digests the
+				// store has never seen (their hashes sort before and after T's)
+				batch := []digest.Digest{T.Digest}
+				if lastUpload != nil {
+					batch = append(batch, lastUpload.Digest)
+				}
+				for j := 0; j < 4; j++ {
+					batch = append(batch, mk(g, "N", 9000+j, 5).Digest)
+				}
+				miss, err := s.FindMissing(batch...)
 				vsched.Obs("FM=%s:%v", status.Code(err), miss[T.Digest.String()])
 				if err != nil && g.Persistent && status.Code(err) == codes.Unavailable {
 					break
+				}
+				if err == nil {
+					for j := 0; j < 4; j++ {
+						if !miss[mk(g, "N", 9000+j, 5).Digest.String()] {
+							failf("never-stored-object-reported-present", "FindMissing reports an object present that was never uploaded")
+						}
+					}
 				}
 				if err != nil {
 					failf("findmissing-error-"+status.Code(err).String(), "FindMissing(T) failed: %v", err)
